@@ -276,9 +276,12 @@ static RunOut exercise(Case &c, Rng &r, const Bytes &file, int presel_song, int 
     // An endless loop over a zero-length / tiny body legitimately costs 10000 passes per call (the
     // library's anti-freeze bound), i.e. 10000 x file size: endless looping is therefore only combined
     // with files <= 256 bytes (and no second load); otherwise the loop count is finite (0..3).
-    bool loop_ever = false;
+    // (The loop-begin snapshot taken by the sequencer keeps the time debt of the tick call in which it was
+    // taken, so a 1e9 s step before looping is enabled would have to be caught up at every later jump; the
+    // decision whether a case may loop at all is therefore taken up front.)
+    const bool loop_ever = r.chance(0.5);     // may this case enable looping at any time?
     const bool endless_ok = file.size() <= 256 && r.chance(0.5);
-    if(r.chance(0.4)) { API("opn2_setLoopEnabled", opn2_setLoopEnabled(d, 1)); loop_ever = true; }
+    if(loop_ever && r.chance(0.7)) API("opn2_setLoopEnabled", opn2_setLoopEnabled(d, 1));
     if(!endless_ok) API("opn2_setLoopCount", opn2_setLoopCount(d, r.range(0, 3)));
     else if(r.chance(0.3)) API("opn2_setLoopCount", opn2_setLoopCount(d, r.range(-1, 3)));
     if(presel_song != 0) API("opn2_selectSongNum", opn2_selectSongNum(d, presel_song));
@@ -304,7 +307,6 @@ static RunOut exercise(Case &c, Rng &r, const Bytes &file, int presel_song, int 
     short pcm[70000 + 16];
     double len = 0; API("opn2_totalTimeLength", len = opn2_totalTimeLength(d));
     std::set<int> kinds;
-    bool big_tempo = false;
     for(int i = 0; i < nfollow; i++)
     {
         int op = (int)r.below(26);
@@ -359,10 +361,10 @@ static RunOut exercise(Case &c, Rng &r, const Bytes &file, int presel_song, int 
         }
         case 13: { size_t tc = 0; API("opn2_trackCount", tc = opn2_trackCount(d)); int rr = 0; API("opn2_setTrackOptions", rr = opn2_setTrackOptions(d, (size_t)r.range(0, (int)std::min<size_t>(tc, 70000) + 2), (unsigned)r.below(8))); (void)rr; break; }
         case 14: { int rr = 0; API("opn2_setChannelEnabled", rr = opn2_setChannelEnabled(d, (size_t)r.range(0, 17), (int)r.below(2))); (void)rr; break; }
-        case 15: { int en = (int)r.below(2); if(en && big_tempo) en = 0; if(en) loop_ever = true; API("opn2_setLoopEnabled", opn2_setLoopEnabled(d, en)); break; }
+        case 15: { int en = loop_ever ? (int)r.below(2) : 0; API("opn2_setLoopEnabled", opn2_setLoopEnabled(d, en)); break; }
         case 16: API("opn2_setLoopCount", opn2_setLoopCount(d, r.range(endless_ok ? -1 : 0, 4))); break;
         case 17: API("opn2_setLoopHooksOnly", opn2_setLoopHooksOnly(d, (int)r.below(2))); break;
-        case 18: { static const double tm[] = {1e-9, 0.1, 0.5, 1, 2, 100, 1e9, 0, -1}; double t = r.pick(tm); if(loop_ever && t > 2) t = 2; if(t > 2) big_tempo = true; API("opn2_setTempo", opn2_setTempo(d, t)); break; }
+        case 18: { static const double tm[] = {1e-9, 0.1, 0.5, 1, 2, 100, 1e9, 0, -1}; double t = r.pick(tm); if(loop_ever && t > 2) t = 2; API("opn2_setTempo", opn2_setTempo(d, t)); break; }
         case 19:
         if(endless_ok) break;
         {   // second load: valid or hostile
@@ -386,6 +388,7 @@ static RunOut exercise(Case &c, Rng &r, const Bytes &file, int presel_song, int 
             break; }
         default: { double ret = 0; double dt = len > 0 && len < 1e6 ? len / 7.0 : 0.5; if(loop_ever && dt > 0.1) dt = 0.1; API("opn2_tickEvents", ret = opn2_tickEvents(d, dt, 0.001)); (void)ret; break; }
         }
+        if(g_w.optnum("trace", 0)) fprintf(stderr, "[trace]   after op %d: tell=%g atEnd=%d loop_ever=%d\n", op, opn2_positionTell(d), opn2_atEnd(d), (int)loop_ever);
         if(g_alloc.max_req > (256ull << 20)) c.violation(vfmt("alloc:single-request-over-256MiB:followup-%d", op), vfmt("allocation request of %llu bytes in follow-up op %d", (unsigned long long)g_alloc.max_req, op));
         if(g_w.violations_in_case > 20) break;
     }
@@ -439,7 +442,7 @@ static void run_case(Case &c)
 {
     Rng &r = c.rng;
     Bytes file; std::string desc; int presel = 0; int nfollow; bool light = false;
-    if(g_w.stage == "sweep")
+    if(g_w.stage.compare(0, 5, "sweep") == 0)
     {
         build_sweep_files();
         size_t nf = g_sweep_files.size();
